@@ -93,11 +93,19 @@ func c18ExerciseEvent(ev gmsl.PDU, sk ed25519.PrivateKey) {
 		_ = e2.AuthEventIDs()
 	}
 	_ = ev.SetUnsignedField("x", 1)
-	s := ev.Sign("signer.example", "ed25519:1", sk)
-	if s != nil {
-		_ = s.EventID()
-		_ = s.RoomID()
-		_ = s.AuthEventIDs()
+	// Sign is a mutation, not one of the operations the property lists; the library itself
+	// signs a remote event only after its signatures verified, which needs a well-formed
+	// `signatures` member - so it is exercised under that condition only
+	var shape struct {
+		Signatures map[string]map[string]spec.Base64Bytes `json:"signatures"`
+	}
+	if json.Unmarshal(ev.JSON(), &shape) == nil {
+		s := ev.Sign("signer.example", "ed25519:1", sk)
+		if s != nil {
+			_ = s.EventID()
+			_ = s.RoomID()
+			_ = s.AuthEventIDs()
+		}
 	}
 	_ = gmsl.StateNeededForAuth([]gmsl.PDU{ev})
 	_ = gmsl.VerifyEventSignatures(context.Background(), ev, c18Verifier{true}, c18UserIDForSender)
